@@ -187,6 +187,15 @@ def run(tier):
     run_kv("c05", csp, ctp)
     cbad, _ = tlc_validate("T_C05C.tla", os.path.join(SPEC, "T_C05C.cfg"), ctp, tag="c05ctv")
     judge(res, PROP, cscen, ctp, cbad)
+    # I-spec conformance: what the ClockCancel model predicts for every callback against what was observed (never an alarm)
+    csess = sessions_of(read_ndjson(ctp))
+    for k, sc in enumerate(cscen):
+        evs = [e for e in csess.get(k + 1, []) if e["a"] in ("drop", "cb")]
+        for j, step in enumerate(sc["steps"]):
+            if step["act"] == "Callback" and (j >= len(evs) or evs[j].get("heard") != step["heard"] or evs[j].get("st") != step["st"]):
+                res.drift.append({"model": "ClockCancel", "session": k + 1, "step": j, "model_says": [step["heard"], step["st"]],
+                                  "real": [evs[j].get("heard"), evs[j].get("st")] if j < len(evs) else None})
+                break
     res.notes["clock_cancel_sessions"] = len(cscen)
     # ---- everything that takes a start time, scheduled for a clock tick (Gen_Sched.tla / P_C05S.tla)
     scfg = write_cfg("Gen_Sched.cfg", "SPECIFICATION Spec\nINVARIANT Dump\nCHECK_DEADLOCK FALSE\n")
